@@ -7,6 +7,16 @@
 // thanos.shipper.json as found | removed | truncated), optionally a second kill at operation k2, and Syncs
 // until one returns nil. After every Sync that returns nil the first half of the statement is evaluated,
 // after every Sync (and on every crash snapshot) the second half.
+//
+// External labels are part of a history: the first complete Sync runs with label set lsets[LC0], the faulted
+// Sync with the base set lsets[0], everything after it with lsets[LC] (a label name removed / added, a value
+// changed). One Shipper object lives as long as the simulated process does (it is
+// re-created only at a kill), its label getter returns the set in force (what the sidecar's reloader and
+// receive's SetLabels do). The label oracle compares the meta.json in the bucket with the block's own
+// (pristine) labels overlaid with the set that was in force when that meta.json was uploaded; the local
+// block directories are compared byte for byte with the blocks as the TSDB wrote them after every Sync and
+// in every crash snapshot (the local directory is one real directory tree on one filesystem, so the
+// shipper's hard links really share inodes with the local block).
 package c35
 
 import (
@@ -18,6 +28,7 @@ import (
 	"iter"
 	"os"
 	"path/filepath"
+	"regexp"
 	"sort"
 	"strings"
 	"sync"
@@ -54,17 +65,32 @@ type Case struct {
 	DieAt   int   `json:"die_at"`   // kill at this mutating bucket op of the second Sync (1-based; 0 = not killed)
 	FileVar int   `json:"file_var"` // thanos.shipper.json at each restart: 0 as found, 1 removed, 2 truncated to half
 	DieAt2  int   `json:"die_at2"`  // kill at this mutating op of the first Sync after the restart (0 = none)
-	Fault   int   `json:"fault"`    // what happens at op DieAt: 0 = the process is killed, 1 = only that operation fails (transient error), the process lives on
+	Fault   int   `json:"fault"`    // what happens at op DieAt: 0 = the process is killed, 1 = only that (mutating) operation fails (transient error), the process lives on, 2 = the DieAt-th READ operation (exists/iter/get) of that Sync fails transiently, the process lives on
+	LC      int   `json:"lc"`       // external label set (index into lsets) in force after the faulted Sync; 0 = unchanged
+	LC0     int   `json:"lc0"`      // external label set in force during the first, uninterrupted Sync (Pre > 0); 0 = the same as during the faulted Sync
 }
 
-var curLset = labels.FromStrings("cluster", "x", "replica", "a")
+// external label sets; the faulted Sync always runs with lsets[0].
+var lsets = []labels.Labels{
+	labels.FromStrings("cluster", "x", "replica", "a"),
+	labels.FromStrings("cluster", "x"),                              // a label name disappears
+	labels.FromStrings("cluster", "x", "replica", "a", "zone", "z"), // a label name appears
+	labels.FromStrings("cluster", "x", "replica", "b"),              // a value changes
+	// (no empty set: block.Upload refuses a block without any external label, so no Sync could succeed)
+}
+
+// number of label sets other than the base
+const nLC = 3
 
 type templates struct {
-	base string
-	dir  [3][nKinds]string // [position][kind] directory holding exactly one block
-	id   [3][nKinds]ulid.ULID
-	mu   sync.Mutex
-	n    int
+	base  string
+	dir   [3][nKinds]string // [position][kind] directory holding exactly one block
+	id    [3][nKinds]ulid.ULID
+	meta  [3][nKinds]*metadata.Meta         // the block's meta.json as the TSDB wrote it
+	files [3][nKinds]map[string][]byte      // every file of the block directory (slash-separated relative path -> content)
+	infos [3][nKinds]map[string]os.FileInfo // their inode identity, size and mtime when the template was built
+	mu    sync.Mutex
+	n     int
 }
 
 func buildTemplates(t *testing.T) *templates {
@@ -93,8 +119,14 @@ func buildTemplates(t *testing.T) *templates {
 						id, err = e2eutil.CreateEmptyBlock(d, mint, maxt, labels.EmptyLabels(), 0)
 					}
 				}
-				errs[pos][kind] = err
 				tp.dir[pos][kind], tp.id[pos][kind] = d, id
+				if err == nil {
+					tp.meta[pos][kind], err = metadata.ReadFromDir(filepath.Join(d, id.String()))
+				}
+				if err == nil {
+					tp.files[pos][kind], tp.infos[pos][kind], err = readTree(filepath.Join(d, id.String()), nil, nil)
+				}
+				errs[pos][kind] = err
 			}()
 		}
 	}
@@ -124,7 +156,8 @@ func (tp *templates) tmp() string {
 
 // dyingBucket copies the local directory at the instant the injected crash happens: that copy is the
 // disk state a killed process leaves behind (the in-process continuation - deferred cleanups, the meta
-// file write - never happened).
+// file write - never happened). It also injects transient failures of one mutating operation and bounds
+// the number of bucket operations one Sync may issue (step budget instead of a wall-clock hang detector).
 type dyingBucket struct {
 	*vcrash.Bucket
 	once    sync.Once
@@ -133,9 +166,25 @@ type dyingBucket struct {
 	mu     sync.Mutex
 	n      int // mutating operations seen
 	failAt int // if >0: the failAt-th mutating operation is refused with a transient error (not applied)
+	steps  int // bucket operations of the running Sync
+	over   bool
 }
 
 var errTransient = errors.New("verif: injected transient write failure")
+var errBudget = errors.New("verif: bucket operation budget of one Sync exhausted")
+
+const stepBudget = 5000 // a Sync of <= 3 tiny blocks issues < 40 bucket operations
+
+func (d *dyingBucket) step() error {
+	d.mu.Lock()
+	defer d.mu.Unlock()
+	d.steps++
+	if d.steps > stepBudget {
+		d.over = true
+		return errBudget
+	}
+	return nil
+}
 
 func (d *dyingBucket) transient() bool {
 	d.mu.Lock()
@@ -145,6 +194,9 @@ func (d *dyingBucket) transient() bool {
 }
 
 func (d *dyingBucket) Upload(ctx context.Context, name string, r io.Reader, o ...objstore.ObjectUploadOption) error {
+	if err := d.step(); err != nil {
+		return err
+	}
 	if d.transient() {
 		return errTransient
 	}
@@ -156,6 +208,9 @@ func (d *dyingBucket) Upload(ctx context.Context, name string, r io.Reader, o ..
 }
 
 func (d *dyingBucket) Delete(ctx context.Context, name string) error {
+	if err := d.step(); err != nil {
+		return err
+	}
 	if d.transient() {
 		return errTransient
 	}
@@ -164,6 +219,27 @@ func (d *dyingBucket) Delete(ctx context.Context, name string) error {
 		d.once.Do(d.onDeath)
 	}
 	return err
+}
+
+func (d *dyingBucket) Exists(ctx context.Context, name string) (bool, error) {
+	if err := d.step(); err != nil {
+		return false, err
+	}
+	return d.Bucket.Exists(ctx, name)
+}
+
+func (d *dyingBucket) Get(ctx context.Context, name string) (io.ReadCloser, error) {
+	if err := d.step(); err != nil {
+		return nil, err
+	}
+	return d.Bucket.Get(ctx, name)
+}
+
+func (d *dyingBucket) Iter(ctx context.Context, dir string, f func(string) error, o ...objstore.IterOption) error {
+	if err := d.step(); err != nil {
+		return err
+	}
+	return d.Bucket.Iter(ctx, dir, f, o...)
 }
 
 type world struct {
@@ -177,13 +253,22 @@ type world struct {
 	bkt   *dyingBucket
 	snap  string // local directory copy taken at the crash
 
+	cur    int              // index into lsets of the external labels in force
+	shp    *shipper.Shipper // the Shipper of the running process (nil = none yet / process was killed)
+	nlocal int              // number of blocks (oldest first) that exist locally
+
 	mu      sync.Mutex
 	seen    map[string]bool // block ids observed complete in the bucket at some state
+	uplAt   map[string]int  // block id -> label set in force when its meta.json was put into the bucket
 	harness []string
 
-	muts2, muts3  int // mutating ops attempted by the (to be) crashed Sync / by the first Sync after the restart
-	successes     int
-	neverSucceeds bool
+	err     error // result of the faulted Sync (input of the continuation)
+	aborted bool  // the first, fault-free Sync failed: nothing to continue
+	forked  bool  // this world was forked from the state a kill left (local = crash snapshot, bucket = death snapshot)
+
+	muts2, reads2, muts3 int // mutating / read ops of the (to be) faulted Sync; mutating ops of the first Sync after the restart
+	successes            int
+	neverSucceeds        bool
 }
 
 var logger = log.NewNopLogger()
@@ -194,6 +279,12 @@ func (w *world) violation(sig, desc string) {
 	if w.report {
 		w.r.Violation(sig, desc, w.c)
 	}
+}
+
+func (w *world) harnessErr(s string) {
+	w.mu.Lock()
+	w.harness = append(w.harness, s)
+	w.mu.Unlock()
 }
 
 // completeBlocks: ids whose meta.json is in objs and all files it lists are there with the recorded size.
@@ -250,6 +341,11 @@ func (w *world) newBucket(objs map[string][]byte) {
 		if w.report {
 			w.r.AddTransitions(1)
 		}
+		if i := strings.IndexByte(op.Name, '/'); op.Kind == "upload" && i > 0 && op.Name[i+1:] == block.MetaFilename {
+			w.mu.Lock()
+			w.uplAt[op.Name[:i]] = w.cur
+			w.mu.Unlock()
+		}
 		w.observe(b.Objects())
 	}
 	w.observe(b.Objects())
@@ -258,7 +354,7 @@ func (w *world) newBucket(objs map[string][]byte) {
 		w.snap = w.tp.tmp()
 		w.dirs = append(w.dirs, w.snap)
 		if err := copyDir(w.local, w.snap); err != nil {
-			w.harness = append(w.harness, "snapshot of local dir: "+err.Error())
+			w.harnessErr("snapshot of local dir: " + err.Error())
 		}
 	}
 	w.bkt = d
@@ -267,28 +363,55 @@ func (w *world) newBucket(objs map[string][]byte) {
 func (w *world) addBlocks(from, to int) {
 	for pos := from; pos < to; pos++ {
 		if err := copyDir(w.tp.dir[pos][w.c.Blocks[pos]], w.local); err != nil {
-			w.harness = append(w.harness, "copy block: "+err.Error())
+			w.harnessErr("copy block: " + err.Error())
 		}
+	}
+	if to > w.nlocal {
+		w.nlocal = to
 	}
 }
 
-func (w *world) sync() error {
-	root, err := os.OpenRoot(w.local)
-	if err != nil {
-		w.harness = append(w.harness, "open root: "+err.Error())
-		return err
+// endProcess: the simulated process is gone (killed, or restarted); the next Sync builds a new Shipper.
+func (w *world) endProcess() {
+	if w.shp != nil {
+		w.shp.Close()
+		w.shp = nil
 	}
-	s := shipper.New(w.bkt, root,
-		shipper.WithLogger(logger),
-		shipper.WithLabels(func() labels.Labels { return curLset }),
-		shipper.WithSource(metadata.SidecarSource),
-		shipper.WithUploadCompacted(w.c.UC),
-		shipper.WithAllowOutOfOrderUploads(w.c.OOO))
-	defer s.Close()
-	_, err = s.Sync(context.Background())
-	if w.report {
-		w.r.AddStates(1)
+}
+
+// sync runs one Shipper.Sync of the current process. A panic of the code under test is a violation
+// (and the end of that process); so is a Sync that does not stop issuing bucket operations.
+func (w *world) sync() (err error) {
+	if w.shp == nil {
+		root, err := os.OpenRoot(w.local)
+		if err != nil {
+			w.harnessErr("open root: " + err.Error())
+			return err
+		}
+		w.shp = shipper.New(w.bkt, root,
+			shipper.WithLogger(logger),
+			shipper.WithLabels(func() labels.Labels { return lsets[w.cur] }),
+			shipper.WithSource(metadata.SidecarSource),
+			shipper.WithUploadCompacted(w.c.UC),
+			shipper.WithAllowOutOfOrderUploads(w.c.OOO))
 	}
+	w.bkt.mu.Lock()
+	w.bkt.steps = 0
+	w.bkt.mu.Unlock()
+	defer func() {
+		if p := recover(); p != nil {
+			w.violation("shipper-sync-panicked", fmt.Sprintf("Shipper.Sync panicked: %v", p))
+			w.endProcess()
+			err = fmt.Errorf("panic in Sync: %v", p)
+		}
+		if w.bkt.over {
+			w.violation("shipper-sync-exceeds-bucket-operation-budget", fmt.Sprintf("one Sync issued more than %d bucket operations", stepBudget))
+		}
+		if w.report {
+			w.r.AddStates(1)
+		}
+	}()
+	_, err = w.shp.Sync(context.Background())
 	return err
 }
 
@@ -308,18 +431,54 @@ func (w *world) checkRecorded(dir, when string) {
 	}
 }
 
-// checkAfterSuccess: first half of the statement, after a Sync that returned nil.
+// checkLocalBlocks: the blocks in the local TSDB directory are the subject of the statement ("every local
+// block ... with all its files"); the shipper only reads them. Every file of every local block directory
+// must be what the TSDB wrote (no file changed, added or removed).
+func (w *world) checkLocalBlocks(dir, when string) {
+	for pos := 0; pos < w.nlocal && pos < len(w.c.Blocks); pos++ {
+		kind := w.c.Blocks[pos]
+		id := w.tp.id[pos][kind].String()
+		want := w.tp.files[pos][kind]
+		got, _, err := readTree(filepath.Join(dir, id), w.tp.infos[pos][kind], want)
+		if err != nil {
+			w.violation("local-block-directory-modified-by-shipper",
+				fmt.Sprintf("%s: local block %s (pos %d kind %d) cannot be read any more: %v", when, id, pos, kind, err))
+			continue
+		}
+		var diffs []string
+		for rel, b := range want {
+			g, ok := got[rel]
+			if !ok {
+				diffs = append(diffs, rel+" removed")
+			} else if !bytes.Equal(g, b) {
+				diffs = append(diffs, fmt.Sprintf("%s changed (%d -> %d bytes)", rel, len(b), len(g)))
+			}
+		}
+		for rel := range got {
+			if _, ok := want[rel]; !ok {
+				diffs = append(diffs, rel+" added")
+			}
+		}
+		if len(diffs) > 0 {
+			sort.Strings(diffs)
+			desc := fmt.Sprintf("%s: local block %s (pos %d kind %d) differs from the block the TSDB wrote: %v", when, id, pos, kind, diffs)
+			if g, ok := got[block.MetaFilename]; ok && !bytes.Equal(g, want[block.MetaFilename]) && len(g) < 1500 {
+				desc += "; local meta.json now: " + string(g)
+			}
+			w.violation("local-block-directory-modified-by-shipper", desc)
+		}
+	}
+}
+
+// checkAfterSuccess: first half of the statement, after a Sync that returned nil. Reference = the blocks as
+// the TSDB wrote them (the templates); that the local copies still equal them is checkLocalBlocks' job.
 func (w *world) checkAfterSuccess(nblocks int) {
 	objs := w.bkt.Objects()
 	complete := completeBlocks(objs)
 	for pos := 0; pos < nblocks; pos++ {
 		kind := w.c.Blocks[pos]
 		id := w.tp.id[pos][kind].String()
-		lm, err := metadata.ReadFromDir(filepath.Join(w.local, id))
-		if err != nil {
-			w.harness = append(w.harness, "local meta: "+err.Error())
-			continue
-		}
+		lm := w.tp.meta[pos][kind]
 		eligible := lm.Stats.NumSamples > 0 && (lm.Compaction.Level <= 1 || w.c.UC)
 		if !eligible {
 			continue
@@ -336,16 +495,8 @@ func (w *world) checkAfterSuccess(nblocks int) {
 			continue
 		}
 		// all its files: every chunk segment and the index of the local block, byte for byte.
-		var rels []string
-		es, _ := os.ReadDir(filepath.Join(w.local, id, block.ChunksDirname))
-		for _, e := range es {
-			rels = append(rels, block.ChunksDirname+"/"+e.Name())
-		}
-		rels = append(rels, block.IndexFilename)
-		for _, rel := range rels {
-			want, err := os.ReadFile(filepath.Join(w.local, id, rel))
-			if err != nil {
-				w.harness = append(w.harness, "read local file: "+err.Error())
+		for rel, want := range w.tp.files[pos][kind] {
+			if rel != block.IndexFilename && !strings.HasPrefix(rel, block.ChunksDirname+"/") {
 				continue
 			}
 			if got, ok := objs[id+"/"+rel]; !ok || !bytes.Equal(got, want) {
@@ -353,13 +504,53 @@ func (w *world) checkAfterSuccess(nblocks int) {
 					fmt.Sprintf("block %s: %s in the bucket present=%v, differs from the local file", id, rel, ok))
 			}
 		}
-		curLset.Range(func(l labels.Label) {
+		// the external labels that were current when the block's meta.json went into the bucket (a block that
+		// is already in the bucket is not shipped again when the labels change later)
+		w.mu.Lock()
+		at, known := w.uplAt[id]
+		w.mu.Unlock()
+		if !known {
+			w.harnessErr("no upload of " + id + "/meta.json was observed although it is in the bucket")
+			continue
+		}
+		cur := lsets[at]
+		lacks := false
+		cur.Range(func(l labels.Label) {
 			if m.Thanos.Labels[l.Name] != l.Value {
-				w.violation("uploaded-block-lacks-current-external-label",
-					fmt.Sprintf("block %s: bucket meta.json has labels %v, current external labels %s", id, m.Thanos.Labels, curLset.String()))
+				lacks = true
 			}
 		})
+		if lacks {
+			w.violation("uploaded-block-lacks-current-external-label",
+				fmt.Sprintf("block %s: bucket meta.json has labels %v, external labels at the time of its upload %s", id, m.Thanos.Labels, cur.String()))
+			continue
+		}
+		// ... and nothing else: a label in the bucket meta that is neither a current external label nor a
+		// label the block itself carried locally comes from somewhere else (an earlier attempt, an earlier
+		// configuration) and makes the block part of a different stream.
+		for name, v := range m.Thanos.Labels {
+			if cur.Has(name) {
+				continue
+			}
+			if own, ok := lm.Thanos.Labels[name]; ok && own == v {
+				continue
+			}
+			w.violation("uploaded-block-carries-label-that-is-not-a-current-external-label",
+				fmt.Sprintf("block %s: bucket meta.json has labels %v; %s=%q is neither in the external labels at the time of its upload (%s) nor in the block's own local meta.json (%v)",
+					id, m.Thanos.Labels, name, v, cur.String(), lm.Thanos.Labels))
+		}
 	}
+}
+
+var ulidRe = regexp.MustCompile(`[0-9A-HJKMNP-TV-Z]{26}`)
+
+// errClass: the error text without block ids, cut to a readable length (evidence counters only).
+func errClass(err error) string {
+	s := ulidRe.ReplaceAllString(err.Error(), "<id>")
+	if len(s) > 120 {
+		s = s[:120]
+	}
+	return s
 }
 
 func objNames(objs map[string][]byte) []string {
@@ -383,77 +574,150 @@ func (w *world) applyFileVar() {
 	}
 }
 
-func run(r *vlib.R, tp *templates, c Case, report bool) *world {
-	w := &world{r: r, c: c, report: report, tp: tp, seen: map[string]bool{}}
-	defer func() {
-		for _, d := range w.dirs {
-			os.RemoveAll(d)
-		}
-	}()
+func (w *world) cleanup() {
+	w.endProcess()
+	for _, d := range w.dirs {
+		os.RemoveAll(d)
+	}
+	w.dirs = nil
+}
+
+// stem runs a history up to and including the faulted Sync (its result is w.err). The continuation
+// (continueFrom) depends on FileVar, DieAt2 and LC only.
+func stem(r *vlib.R, tp *templates, c Case, report bool) *world {
+	w := &world{r: r, c: c, report: report, tp: tp, seen: map[string]bool{}, uplAt: map[string]int{}}
 	w.local = tp.tmp()
 	w.dirs = append(w.dirs, w.local)
 	if err := os.MkdirAll(w.local, 0o755); err != nil {
-		w.harness = append(w.harness, err.Error())
+		w.harnessErr(err.Error())
 		return w
 	}
 	n := len(c.Blocks)
 	w.newBucket(nil)
 	if c.Pre > 0 {
+		w.cur = c.LC0
 		w.addBlocks(0, c.Pre)
 		if err := w.sync(); err != nil {
-			w.harness = append(w.harness, "first uninterrupted Sync failed: "+err.Error())
+			// never on the unchanged tree. The statement is conditional on a successful Sync: the history ends
+			// here (a panic was already reported by sync); counted, and the run is vacuous if nothing succeeds.
+			w.aborted = true
+			if report {
+				r.Add("first_fault_free_sync_failed: "+errClass(err), 1)
+			}
 			return w
 		}
 		w.successes++
 		w.checkAfterSuccess(c.Pre)
 		w.checkRecorded(w.local, "after-sync")
+		w.checkLocalBlocks(w.local, "after the first Sync")
 	}
 	w.addBlocks(c.Pre, n)
 
-	// the Sync that may be killed
-	base := w.bkt.MutCount()
-	if c.DieAt > 0 && c.Fault == 1 {
+	// the Sync that may be killed; the same process (Shipper), the base external labels
+	w.cur = 0
+	base, rbase := w.bkt.MutCount(), w.bkt.ReadCount()
+	switch {
+	case c.DieAt > 0 && c.Fault == 2:
+		w.bkt.FailRead = rbase + c.DieAt
+	case c.DieAt > 0 && c.Fault == 1:
 		w.bkt.failAt = w.bkt.n + c.DieAt
-	} else if c.DieAt > 0 {
+	case c.DieAt > 0:
 		w.bkt.DieAtMut = base + c.DieAt
 	}
-	err := w.sync()
+	w.err = w.sync()
 	w.muts2 = w.bkt.MutCount() - base
+	w.reads2 = w.bkt.ReadCount() - rbase
+	return w
+}
+
+// fork: an independent copy of the state the faulted Sync left: if it was killed, the crash snapshot of
+// the local directory and the objects that had reached the bucket; otherwise the live directory and bucket.
+// Only used for continuations that start a new process (a new Shipper on the copied directory).
+func (st *world) fork(c Case) *world {
+	w := &world{r: st.r, c: c, report: st.report, tp: st.tp, seen: map[string]bool{}, uplAt: map[string]int{},
+		cur: st.cur, nlocal: st.nlocal, err: st.err, muts2: st.muts2, reads2: st.reads2}
+	st.mu.Lock()
+	for k, v := range st.seen {
+		w.seen[k] = v
+	}
+	for k, v := range st.uplAt {
+		w.uplAt[k] = v
+	}
+	st.mu.Unlock()
+	src, objs := st.local, st.bkt.Objects()
+	if st.bkt.Dead() {
+		w.forked = true
+		src, objs = st.snap, st.bkt.DeathSnapshot()
+		if src == "" {
+			w.harnessErr("bucket died but no local snapshot was taken")
+			src = st.local
+		}
+	}
+	w.local = st.tp.tmp()
+	w.dirs = append(w.dirs, w.local)
+	if err := copyDir(src, w.local); err != nil {
+		w.harnessErr("fork of local dir: " + err.Error())
+	}
+	if objs == nil {
+		objs = map[string][]byte{}
+	}
+	w.newBucket(objs)
+	return w
+}
+
+// continueFrom runs the rest of the history on the state the faulted Sync left.
+func (w *world) continueFrom() {
+	if len(w.harness) > 0 || w.bkt == nil || w.aborted {
+		return
+	}
+	r, c, report := w.r, w.c, w.report
+	n := len(c.Blocks)
+	err := w.err
+	w.cur = c.LC // the external labels change (or not) after the faulted Sync
 	restarts := 0
 	for attempt := 0; ; attempt++ {
-		if w.bkt.Dead() {
-			if w.snap == "" {
-				w.harness = append(w.harness, "bucket died but no local snapshot was taken")
-				return w
+		if w.forked || w.bkt.Dead() {
+			if w.forked {
+				w.forked = false // local directory and bucket already are the crash state
+			} else {
+				if w.snap == "" {
+					w.harnessErr("bucket died but no local snapshot was taken")
+					return
+				}
+				w.local, w.snap = w.snap, ""
+				w.newBucket(w.bkt.DeathSnapshot())
 			}
-			if report && len(w.bkt.DeathSnapshot()) > 0 {
-				r.Nontrivial(fmt.Sprintf("%v/%v/%v/%d/%d/%d/%d", c.Blocks, c.UC, c.OOO, c.Pre, c.DieAt, c.FileVar, c.DieAt2))
+			w.endProcess()
+			if report && len(w.bkt.Objects()) > 0 {
+				r.Nontrivial(fmt.Sprintf("%v/%v/%v/%d/%d/%d/%d/%d/%d", c.Blocks, c.UC, c.OOO, c.Pre, c.DieAt, c.FileVar, c.DieAt2, c.LC, c.LC0))
 			}
-			w.local, w.snap = w.snap, ""
-			w.newBucket(w.bkt.DeathSnapshot())
 		} else if err == nil {
 			w.successes++
 			w.checkAfterSuccess(n)
 			w.checkRecorded(w.local, "after-sync")
-			if restarts >= 1 || (c.DieAt == 0 && c.FileVar == 0) {
-				return w
+			w.checkLocalBlocks(w.local, "after a successful Sync")
+			if restarts >= 1 || (c.DieAt == 0 && c.FileVar == 0 && c.LC == 0) {
+				return
 			}
-			// a kill right after the Sync (meta-file step): same bucket, fresh shipper
+			// a kill right after the Sync (meta-file step): same bucket, new process
+			w.endProcess()
 		} else {
-			// Sync failed without an injected crash
+			// Sync failed without an injected crash: the process lives on and syncs again
 			w.checkRecorded(w.local, "after-failed-sync")
-			if report && c.Fault == 1 {
-				r.Nontrivial(fmt.Sprintf("transient/%v/%v/%v/%d/%d", c.Blocks, c.UC, c.OOO, c.Pre, c.DieAt))
+			w.checkLocalBlocks(w.local, "after a failed Sync")
+			if report && c.Fault != 0 {
+				r.Nontrivial(fmt.Sprintf("transient/%d/%v/%v/%v/%d/%d/%d/%d", c.Fault, c.Blocks, c.UC, c.OOO, c.Pre, c.DieAt, c.LC, c.LC0))
 			}
 			if attempt >= 3 {
 				w.neverSucceeds = true
 				if report {
 					r.Add("histories_where_sync_never_succeeds_again", 1)
+					r.Add("never_succeeds_again: "+errClass(err), 1)
 					neverOnce.Do(func() {
 						r.Note("outside the statement (it is conditional on a successful sync): in some histories no Sync succeeds any more after the crash; first example %+v: %v", c, err)
 					})
 				}
-				return w
+				return
 			}
 			err = w.sync()
 			continue
@@ -461,15 +725,42 @@ func run(r *vlib.R, tp *templates, c Case, report bool) *world {
 		// restart
 		restarts++
 		w.checkRecorded(w.local, "at-crash")
+		w.checkLocalBlocks(w.local, "in the directory a killed process left")
 		w.applyFileVar()
 		if restarts == 1 && c.DieAt2 > 0 {
-			w.bkt.DieAtMut = c.DieAt2
+			w.bkt.DieAtMut = w.bkt.MutCount() + c.DieAt2
 		}
+		m0 := w.bkt.MutCount()
 		err = w.sync()
 		if restarts == 1 {
-			w.muts3 = w.bkt.MutCount()
+			w.muts3 = w.bkt.MutCount() - m0
 		}
 	}
+}
+
+// run evaluates one history from scratch.
+func run(r *vlib.R, tp *templates, c Case, report bool) *world {
+	w := stem(r, tp, c, report)
+	w.continueFrom()
+	w.cleanup()
+	return w
+}
+
+// variants of a kill history that share the faulted Sync: what the restarted process finds
+// (thanos.shipper.json as found / removed / truncated) x the external labels it runs with.
+func variants(r *vlib.R, c Case) []Case {
+	var out []Case
+	for fv := 0; fv <= 2; fv++ {
+		for lc := 0; lc <= nLC; lc++ {
+			if fv != 0 && lc != 0 {
+				continue
+			}
+			v := c
+			v.FileVar, v.LC = fv, lc
+			out = append(out, v)
+		}
+	}
+	return out
 }
 
 func gen(r *vlib.R, tp *templates) iter.Seq[Case] {
@@ -479,19 +770,46 @@ func gen(r *vlib.R, tp *templates) iter.Seq[Case] {
 			for _, uc := range []bool{false, true} {
 				for _, ooo := range []bool{false, true} {
 					for pre := 0; pre < len(seq); pre++ {
-						base := Case{Blocks: seq, UC: uc, OOO: ooo, Pre: pre}
-						nops := run(r, tp, base, false).muts2
-						for k := 1; k <= nops; k++ {
-							c := base
-							c.DieAt, c.Fault = k, 1
-							if !yield(c) {
-								return
+						for lc0 := 0; lc0 <= nLC; lc0++ {
+							if lc0 != 0 && pre == 0 {
+								continue // no first Sync: nothing ran with other labels
 							}
-						}
-						for k := 0; k <= nops; k++ {
-							for fv := 0; fv <= 2; fv++ {
+							base := Case{Blocks: seq, UC: uc, OOO: ooo, Pre: pre, LC0: lc0}
+							if lc0 != 0 && !r.Thorough() {
+								// quick: labels changed between two complete Syncs of one process, no fault
+								if !yield(base) {
+									return
+								}
+								continue
+							}
+							bw := run(r, tp, base, false)
+							nlc := nLC
+							if lc0 != 0 {
+								nlc = 0 // one label change per history: before the faulted Sync or after it
+							}
+							// the process lives on: one mutating / one read operation fails, the labels change (or not), Sync again
+							for k := 1; k <= bw.muts2; k++ {
+								for lc := 0; lc <= nlc; lc++ {
+									c := base
+									c.DieAt, c.Fault, c.LC = k, 1, lc
+									if !yield(c) {
+										return
+									}
+								}
+							}
+							for j := 1; j <= bw.reads2; j++ {
+								for lc := 0; lc <= nlc; lc++ {
+									c := base
+									c.DieAt, c.Fault, c.LC = j, 2, lc
+									if !yield(c) {
+										return
+									}
+								}
+							}
+							// the process is killed at op k (0 = right after the Sync): one group per k, expanded by variants()
+							for k := 0; k <= bw.muts2; k++ {
 								c := base
-								c.DieAt, c.FileVar = k, fv
+								c.DieAt = k
 								if !yield(c) {
 									return
 								}
@@ -504,56 +822,106 @@ func gen(r *vlib.R, tp *templates) iter.Seq[Case] {
 	}
 }
 
+func validCase(c Case) bool {
+	if len(c.Blocks) < 1 || len(c.Blocks) > 3 || c.Pre < 0 || c.Pre > len(c.Blocks) || c.LC < 0 || c.LC >= len(lsets) || c.LC0 < 0 || c.LC0 >= len(lsets) ||
+		c.Fault < 0 || c.Fault > 2 || c.FileVar < 0 || c.FileVar > 2 || c.DieAt < 0 || c.DieAt2 < 0 {
+		return false
+	}
+	for _, k := range c.Blocks {
+		if k < 0 || k >= nKinds {
+			return false
+		}
+	}
+	return true
+}
+
 func TestCheck(t *testing.T) {
 	r := vlib.New(t, "C35")
 	defer r.Finish()
 	r.Rule("local block sequences (time order) of length 1..2 (thorough 1..3) over {level-1 non-empty, level-2 non-empty, empty} x uploadCompacted x allowOutOfOrderUploads " +
-		"x number of oldest blocks shipped by an earlier complete Sync x {kill at every mutating bucket op k of the next Sync (0 = none) x thanos.shipper.json at restart {as found, removed, truncated} | transient failure of op k, process lives} " +
-		"(thorough: x second kill at every op k2 of the restarted Sync, file as found); non-trivial = distinct histories whose crash leaves a non-empty bucket")
+		"x number of oldest blocks shipped by an earlier complete Sync x {kill at every mutating bucket op k of the next Sync (0 = none) x (thanos.shipper.json at restart {as found, removed, truncated} + external labels after the fault {name removed, name added, value changed}) " +
+		"| transient failure of mutating op k or of read op j, process (same Shipper) lives x external labels after the fault {unchanged, name removed, name added, value changed}} " +
+		"+ external labels {name added, name removed, value changed} between the earlier complete Sync and the next one (quick: without fault; thorough: with every kill / transient fault) " +
+		"(thorough: x second kill at every op k2 of the restarted Sync, file as found, labels unchanged and - up to 2 blocks - changed); non-trivial = distinct histories whose crash leaves a non-empty bucket or whose faulted Sync fails")
 	r.Assume("object PUT is atomic; the local directory a killed process leaves is the directory as copied at the instant the k-th operation is refused; " +
-		"external labels do not change between restarts; nobody else deletes blocks from the bucket; upload concurrency 1")
+		"external labels change only between Syncs, 'current' labels of a block = those in force when its meta.json was put into the bucket (blocks already in the bucket are not re-labelled); " +
+		"nobody else deletes blocks from the bucket; upload concurrency 1")
 	t0 := time.Now()
 	tp := buildTemplates(t)
 	r.Set("template_build_s", time.Since(t0).Seconds())
 	var harness sync.Map
-	var succ, never int64
+	var succ, never, lchist int64
 	var mu sync.Mutex
+	account := func(w *world) {
+		for _, h := range w.harness {
+			harness.Store(h, w.c)
+		}
+		mu.Lock()
+		succ += int64(w.successes)
+		if w.neverSucceeds {
+			never++
+		}
+		if w.c.LC != 0 || w.c.LC0 != 0 {
+			lchist++
+		}
+		mu.Unlock()
+	}
 	forEach(r, gen(r, tp), func(c Case) {
-		if len(c.Blocks) < 1 || len(c.Blocks) > 3 || c.Pre < 0 || c.Pre > len(c.Blocks) {
+		if !validCase(c) {
 			t.Errorf("HARNESS-ERROR bad case %+v", c)
 			return
 		}
-		for _, k := range c.Blocks {
-			if k < 0 || k >= nKinds {
-				t.Errorf("HARNESS-ERROR bad case %+v", c)
-				return
-			}
+		if r.Replaying() || c.Fault != 0 || c.LC0 != 0 {
+			// one history, one process as long as it is not killed
+			account(run(r, tp, c, true))
+			r.Sample(c)
+			return
 		}
-		ws := []*world{run(r, tp, c, true)}
-		r.Sample(c)
-		if r.Thorough() && c.Fault == 0 && c.DieAt > 0 && c.FileVar == 0 && c.DieAt2 == 0 && !r.Replaying() {
-			// second level: kill the restarted Sync at each of its mutating operations (count known from the run above)
-			for k2 := 1; k2 <= ws[0].muts3; k2++ {
-				c2 := c
-				c2.DieAt2 = k2
-				ws = append(ws, run(r, tp, c2, true))
+		// kill family: the faulted Sync is run once, every continuation starts a new process on a copy of the
+		// state it left (replaying one of these cases runs the same history from scratch)
+		st := stem(r, tp, c, true)
+		defer st.cleanup()
+		account(st)
+		if len(st.harness) > 0 || st.aborted {
+			return
+		}
+		if !st.bkt.Dead() && st.err != nil {
+			// the faulted Sync failed by itself: the process lives, no shared state; run every variant from scratch
+			for i, v := range variants(r, c) {
+				account(run(r, tp, v, true))
+				r.Sample(v)
+				if i > 0 {
+					r.Eval(1)
+				}
+			}
+			return
+		}
+		for i, v := range variants(r, c) {
+			w := st.fork(v)
+			w.continueFrom()
+			w.cleanup()
+			account(w)
+			r.Sample(v)
+			if i > 0 {
 				r.Eval(1)
-				r.Sample(c2)
 			}
-		}
-		for _, w := range ws {
-			for _, h := range w.harness {
-				harness.Store(h, w.c)
+			if r.Thorough() && c.DieAt > 0 && v.FileVar == 0 && c.LC0 == 0 && (v.LC == 0 || len(c.Blocks) <= 2) {
+				// second level: kill the restarted Sync at each of its mutating operations
+				for k2 := 1; k2 <= w.muts3; k2++ {
+					v2 := v
+					v2.DieAt2 = k2
+					w2 := st.fork(v2)
+					w2.continueFrom()
+					w2.cleanup()
+					account(w2)
+					r.Eval(1)
+					r.Sample(v2)
+				}
 			}
-			mu.Lock()
-			succ += int64(w.successes)
-			if w.neverSucceeds {
-				never++
-			}
-			mu.Unlock()
 		}
 	})
 	r.Set("successful_syncs_checked", succ)
+	r.Set("histories_with_label_change", lchist)
 	harness.Range(func(k, v any) bool {
 		t.Errorf("HARNESS-ERROR %v (case %+v)", k, v)
 		return true
